@@ -23,9 +23,9 @@ CTX = {'k': 1}
 RETURNS = {'R1': False, 'R2': 0, 'F0': '', 'M': False, 'S_onB': False, 'S_emitB': True}
 
 BOUNDS = {
-    'quick': 'all operation sequences of length <= 3 over 36 operations (tree, no state merging) + final probe; '
+    'quick': 'all operation sequences of length <= 3 over 39 operations (tree, no state merging) + final probe; '
              'graph search over model states to closure (18 operations, listener lists <= 2 per name)',
-    'thorough': 'all operation sequences of length <= 4 over 36 operations (1.2 M histories); graph search to '
+    'thorough': 'all operation sequences of length <= 4 over 39 operations (2.3 M histories); graph search to '
                 'closure with listener lists <= 3 per name',
 }
 ASSUMPTIONS = ['callbacks carrying an attribute named `_` are outside the alphabet (the emitter marks its once-wrappers with it, as tiny-emitter does, so off(name, cb) also removes a callable whose `_` equals cb)',
@@ -59,6 +59,9 @@ def alphabet():
     ops.append(['on', 'a', 'M', None])      # a bound method: a new, equal object at every mention
     ops.append(['once', 'a', 'M', None])
     ops.append(['off', 'a', 'M'])
+    ops.append(['on', 'a', 'K', None])      # a callable OBJECT with attributes of its own (called = True, like a used Mock)
+    ops.append(['once', 'a', 'K', None])
+    ops.append(['off', 'a', 'K'])
     return ops
 
 
@@ -125,6 +128,21 @@ class Holder(object):
         return self.rec(*a, **k)
 
 
+class Spy(object):
+    """a callable object that carries attributes an emitter might be tempted to read: `called` (truthy after first use, like
+    unittest.mock.Mock), `fn`, `ctx`, `once`"""
+
+    def __init__(self, rec):
+        self.rec = rec
+        self.called = True
+        self.fn = None
+        self.ctx = {'bogus': 1}
+        self.once = True
+
+    def __call__(self, *a, **k):
+        return self.rec(*a, **k)
+
+
 class Falsy(object):
     def __init__(self, rec):
         self.rec = rec
@@ -150,6 +168,7 @@ class World(object):
         for name, script in SCRIPTS.items():
             self.cbs[name] = self._recorder(name, script)
         self.cbs['F0'] = Falsy(self._recorder('F0', None))
+        self.cbs['K'] = Spy(self._recorder('K', None))
         self.holder = Holder(self._recorder('M', None))
         self.names_of = dict((id(v), k) for k, v in self.cbs.items())
 
